@@ -1,13 +1,14 @@
 """Driver for whole runs of the real LineageRunner under a statement-level scheduler (C12, C10 silent mode).
 Taps are class-level wrappers installed in the harness process only (no source hook): they are active only for threads
 that carry a controller in thread-local storage.  Renderer + projection, no oracle logic."""
+from harness import REPO as _REPO
 import inspect
 import sys
 import threading
 import warnings
 
-if "/repo" not in sys.path:
-    sys.path.insert(0, "/repo")
+if _REPO not in sys.path:
+    sys.path.insert(0, _REPO)
 
 SQL = {"mk1": "create table tmp as select a1, a2 from src",
        "mk2": "create table tmp as select b1 from src",
